@@ -9,6 +9,8 @@
   Every theorem is for all messages / all states — there is no length bound (FIPS 202 has none).
 -/
 import CxVerif.Proofs.SpongeHash
+import CxVerif.Proofs.SpongeCtx
+import CxVerif.Proofs.KeccakVectors
 namespace Cx.Props.C01
 open Cx Cx.Proofs.Sponge Cx.Proofs.Keccak
 
@@ -108,5 +110,10 @@ theorem variants_as_modelled :
 /-- rates (`BLOCK_BYTES`) of the eight variants -/
 theorem rates : Impl.Sha3.rate 28 = some 144 ∧ Impl.Sha3.rate 32 = some 136 ∧ Impl.Sha3.rate 48 = some 104 ∧
     Impl.Sha3.rate 64 = some 72 := by decide
+
+/-- protocol level: for each of the eight algorithms and EVERY request line `hash.<alg> …` (well-formed or not) the
+    code-shaped model and the Spec give the same answer line — the model never answers PANIC -/
+theorem hash_lines_agree (a : Cx.Driver.Sha3.Alg) (ha : a ∈ Cx.Driver.Sha3.algs) (args : List String) :
+    Cx.Driver.Sha3.hashImpl a args = Cx.Driver.Sha3.hashSpec a args := driver_hash_agree a ha args
 
 end Cx.Props.C01
